@@ -95,3 +95,14 @@ def noncontiguous(arr, k):
     if kind == 2:
         return np.ascontiguousarray(arr.transpose(2, 0, 1)).transpose(1, 2, 0)
     return np.ascontiguousarray(arr[::-1])[::-1]
+
+
+def broadcast_view(arr, k):
+    """(view, values): a read-only zero-stride view (np.broadcast_to of one trace sample / one crossline / one inline along
+    the remaining axis) and the cube of values it denotes -- what a caller gets when a horizon, a wavelet or a constant is
+    broadcast into a cube; a valid NumpyConverter input like any other ndarray"""
+    ax = k % 3
+    sl = [slice(None)] * 3
+    sl[ax] = slice(0, 1)
+    view = np.broadcast_to(arr[tuple(sl)], arr.shape)
+    return view, np.array(view)
